@@ -2,9 +2,15 @@
 # usage: ./check.sh <Cxx> [quick|thorough]
 # Rebuilds the checker from /verif/zlv (cached, ~1 s) and decides property
 # <Cxx> on /repo's current working tree. Nothing under /repo is written.
+# thorough = the same rules on four build configurations plus the checker's
+# two-sided self-test (tools/thorough.sh).
 cd "$(dirname "$0")" || exit 2
 export GOFLAGS=-mod=mod GOPROXY=off GOSUMDB=off GOTOOLCHAIN=local CGO_ENABLED=0
 unset GOWORK
 mkdir -p bin evidence
 (cd zlv && go build -o ../bin/zlv .) || { echo "CHECKER-FAULT: zlv does not build"; exit 2; }
-exec ./bin/zlv -prop "$1" -tier "${2:-${VERIF_TIER:-quick}}"
+tier="${2:-${VERIF_TIER:-quick}}"
+if [ "$tier" = thorough ]; then
+  exec tools/thorough.sh "$1"
+fi
+exec ./bin/zlv -prop "$1" -tier quick
